@@ -107,6 +107,7 @@ fn write_replay(id: &str, n: usize, case: &Value, msg: &str) -> String {
 
 fn replay_case(prop: &props::Prop, case: &Value) -> Vec<String> {
     let mut ctx = Ctx::new();
+    ctx.vcap = 10_000;
     bind_slot();
     match guarded(|| (prop.replay)(case, &mut ctx)) {
         Ok(()) => ctx.viol.iter().map(|v| v.msg.clone()).collect(),
@@ -136,6 +137,7 @@ fn cmd_run(id: &str, tier: Tier) -> u8 {
     let mut lines = Vec::new();
     let _ = std::fs::remove_dir_all(format!("{}/replays/{}", verif_dir(), id));
     let viols = run.total.viol.clone();
+    let mut replayed: std::collections::HashMap<String, bool> = std::collections::HashMap::new();
     for (n, v) in viols.iter().enumerate() {
         let key = case_key(&v.case);
         let replayable = v
@@ -144,7 +146,25 @@ fn cmd_run(id: &str, tier: Tier) -> u8 {
             .and_then(|k| k.as_str())
             .map(|k| k != "shard" && k != "section")
             .unwrap_or(false);
-        if replayable {
+        if replayable && v.case.get("config").and_then(|c| c.as_str()) == Some("release") && cfg!(debug_assertions) {
+            // found by the release-configuration leg: replay it with the release binary
+            let path = write_replay(id, n, &v.case, &v.msg);
+            let mut fails = 0;
+            if let Ok(rel) = std::env::var("OWLMC_REL") {
+                for _ in 0..2 {
+                    if let Ok(st) = Command::new(&rel).args(["replay", &path]).stdout(std::process::Stdio::null()).status() {
+                        if !matches!(st.code(), Some(0) | Some(2)) {
+                            fails += 1;
+                        }
+                    }
+                }
+            }
+            if fails != 2 {
+                eprintln!("MACHINERY ERROR: release-configuration violation did not reproduce twice: {}", key);
+                return 2;
+            }
+        } else if replayable && !replayed.contains_key(&key) {
+            replayed.insert(key.clone(), true);
             let r1 = replay_case(prop, &v.case);
             let r2 = replay_case(prop, &v.case);
             if r1 != r2 {
